@@ -9,7 +9,10 @@ RULE = ("names = absolute prefix x up to N segments over the adversarial alphabe
         "separators (N=3 quick, 5 thorough, exhaustive) x roots (absolute, relative, with '..', '/', '//', trailing slash); "
         "random unicode strings; names captured by the real router's ':path*' from URLs; cwd = several real directories "
         "(os.chdir) plus synthetic os.getcwd() values; non-trivial = the name passes the '.'/'..' filter (accepted, or "
-        "rejected only by the containment test)")
+        "rejected only by the containment test); percent-encoded names: every sequence of <= 2 (thorough 3) segments over "
+        "{%2e%2e, %2e, %2E%2E, .%2e, a%2fb, %2f, %5c, ..%2f.., %252e%252e, %c0%ae%c0%ae, %00, .., a} x both separators x all "
+        "prefixes x all roots, and the same shapes through the router's ':path*' capture; process history: relative and "
+        "absolute roots asked again and again while the working directory changes between consecutive calls")
 ASSUMPTIONS = ["os.getcwd() returns an absolute path (premise of the theorems)",
                "no symbolic links are considered: containment is lexical (component lists), as in the property statement"]
 TRUSTED = ["CPython posixpath.join/normpath/abspath are modelled (PathJoin.v) and compared differentially, not verified"]
@@ -80,6 +83,22 @@ def gen_names(run, nseg):
     return out
 
 
+PCT_SEGS = ["%2e%2e", "%2e", "%2E%2E", ".%2e", "a%2fb", "%2f", "%5c", "..%2f..", "%252e%252e", "%c0%ae%c0%ae", "%00", "..", "a"]
+
+
+def gen_pct_names(nseg):
+    out = []
+    for k in range(1, nseg + 1):
+        for segs in itertools.product(PCT_SEGS, repeat=k):
+            if all(s in ("..", "a") for s in segs):
+                continue                       # already in the plain sweep
+            for sep in ("/", "\\"):
+                if k == 1 and sep == "\\":
+                    continue
+                out.append(sep.join(segs))
+    return out
+
+
 def rand_str(r, n):
     alpha = ["/", "\\", ".", "..", "a", "b", " ", "\u00e9", "\u4e2d", "\U0001f600", "~", ":", "\t", "%2e", "\x00", "\x7f", "-"]
     return "".join(r.choice(alpha) for _ in range(n))
@@ -135,17 +154,22 @@ def run(run):
     captured = []
     urls = ["/static" + u for u in ["", "/", "//etc/passwd", "/../x", "/a/b", "/a//b/", "///", "/%2e%2e/x", "/\\etc\\passwd", "/a/../../etc"]]
     urls += ["/static/" + rand_str(r, r.randrange(0, 10)).replace("\n", "") for _ in range(3000 if run.thorough() else 500)]
+    urls += ["/static/" + "/".join(segs) for segs in itertools.product(PCT_SEGS, repeat=2)] + ["/static//" + s for s in PCT_SEGS]
     for u in urls:
         res = rt.getRoute("GET", u)
         if res and res[1].get("path") is not None:
             captured.append(res[1]["path"])
     run.count("router_captured_names", len(captured))
 
+    pct = [pre + n for pre in PREFIXES for n in gen_pct_names(3 if run.thorough() else 2)]
+    run.count("percent_encoded_names", len(pct))
+    run.exhaustive.append("percent-encoded names: %d prefixes x all sequences of <= %d segments over %d symbols x 2 separators = %d "
+                          "names, each x %d roots" % (len(PREFIXES), 3 if run.thorough() else 2, len(PCT_SEGS), len(pct), len(ROOTS)))
     nviol = 0
     for ci, cw in enumerate(cwds):
         # the full sweep under two real cwds; a sample under the others
         if ci == 2 or (run.thorough() and ci == 0):
-            nm = full + junk + captured
+            nm = full + junk + captured + pct
         else:
             nm = r.sample(full, min(len(full), 3000)) + junk[:500] + captured[:200]
         roots = ROOTS if ci in (0, 2) else r.sample(ROOTS, 6)
@@ -181,6 +205,30 @@ def run(run):
         if ci == 0:
             k = next((i for i, x in enumerate(impl) if x[0] == 0 and cases[i][2]), 0)
             run.sample({"unit": "path_join_safe", "case": list(cases[k]), "impl": U(impl[k][1]) if impl[k][0] == 0 else impl[k]})
+    # process history: the working directory changes between consecutive calls (a result remembered for a root or
+    # a name under one directory must not be handed out under another)
+    hist = []
+    real = [c for c in cwds if not c.synthetic]
+    pool_n = ["", "a", "a/b", "..", "/etc/passwd", "a/../b", "%2e%2e/x", "\\etc"] + r.sample(full, 40) + r.sample(pct, 20)
+    for _ in range(6000 if run.thorough() else 1200):
+        hist.append((r.choice(real), r.choice(["rel", "rel/sub/", "..", ".", "", "rel/../x", "/srv/www", "srv\\www"]), r.choice(pool_n)))
+    himpl = []
+    for cw, root, n in hist:
+        with cw:
+            himpl.append(impl_pjs(root, n))
+    hcases = [(cw.path, root, n) for cw, root, n in hist]
+    run.compare("path_join_safe", hcases, himpl, M.call_many("path_join_safe", [[S(c), S(root), S(n)] for (c, root, n) in hcases]))
+    for k, ((c, root, n), res) in enumerate(zip(hcases, himpl)):
+        run.evaluations += 1
+        if res[0] == 0 and not contained(c, root, U(res[1])):
+            nviol += 1
+            if nviol <= 8:
+                run.oracle_violation("escapes-root", {"cwd": c, "root": root, "name": n, "result": U(res[1]), "call_number": k,
+                                                      "previous_call": list(hcases[k - 1]) if k else None,
+                                                      "note": "working directory changed between calls"}, "path_join_safe")
+        elif res[0] == 1 and res[1] != 1:
+            run.oracle_violation("unexpected-exception", {"cwd": c, "root": root, "name": n, "err": res[1]}, "path_join_safe")
+    run.count("history_calls", len(hist))
     run.count("containment_violations", nviol)
     # the classic witnesses, always evaluated
     for root, n in [("/srv/www", "/etc/passwd"), ("/srv/www", "//etc/passwd"), ("/srv/www", "\\etc\\passwd"),
